@@ -52,6 +52,7 @@ type harness struct {
 	magic     [4]byte
 	ch        *chain.Chain
 	blocks    []*hBlock // blocks[h-1] = block at height h
+	staleFork [][32]byte // hashes of the stored side-branch blocks (never connected)
 	genesisID [32]byte
 	tipTime   uint32
 	nodeNonce []byte // nonce of the node's version message (learnt in the self-test)
@@ -158,6 +159,31 @@ func newHarness(logPath string, synchronized bool) *harness {
 		prev = b.Hash
 	}
 	h.tipTime = t
+	// a stale side branch the node knows about: two blocks forking off six blocks below the tip (less work than the main
+	// chain, so they are stored and indexed but never connected) - locators may name them
+	{
+		fp := h.blocks[chainLen-7].Hash
+		ft := ch.Consensus.GensisTimestamp + uint32(chainLen-6)*blockSpace + 7
+		for k := uint32(0); k < 2; k++ {
+			b := h.makeBlock(fp, chainLen-5+k, ft+k*blockSpace, nil)
+			bl, er := btc.NewBlock(b.ser())
+			if er != nil {
+				fatalBroken("NewBlock (side branch): %v", er)
+			}
+			ch.BlockIndexAccess.Lock()
+			_, _, er = ch.CheckBlock(bl)
+			ch.BlockIndexAccess.Unlock()
+			if er != nil {
+				fatalBroken("CheckBlock side branch: %v", er)
+			}
+			bl.LastKnownHeight = chainLen
+			if er = ch.AcceptBlock(bl); er != nil {
+				fatalBroken("AcceptBlock side branch: %v", er)
+			}
+			h.staleFork = append(h.staleFork, b.Hash)
+			fp = b.Hash
+		}
+	}
 	if ch.LastBlock().Height != chainLen {
 		fatalBroken("tip height %d", ch.LastBlock().Height)
 	}
